@@ -226,6 +226,7 @@ func main() {
 
 	backends := staticBackends()
 	backends = append(backends, provokedBackends(r)...)
+	backends = append(backends, compositeBackends(backends)...)
 
 	if r.Replay != "" {
 		h.replay(backends)
